@@ -169,7 +169,7 @@ static bool c17_prepare(C17Case& c, const LabCase& lc) {
 }
 static J c17_replay(const C17Case& c, const std::string& kind, size_t n, const Corruption* co) {
   J r = J::obj(); r.set("engine", "sim_persist"); r.set("mode", "c17"); r.set("spec", spec_json(c.spec)); r.set("buffers", bufs_json(c.bufs)); r.set("kind", kind);
-  if (kind == "trunc" || !co) r.set("n", (int64_t) n);
+  if (kind == "trunc" || kind == "ftrunc" || !co) r.set("n", (int64_t) n);
   else { r.set("field", co->field); r.set("off", (int64_t) co->off); r.set("width", co->width); r.set("value", (int64_t) co->value); r.set("what", co->what); }
   return r;
 }
@@ -217,7 +217,28 @@ static void c17_run_case(C17Case& c, Rng& rng, bool thorough, Stats& st, int cas
       if (out) st.c["trunc_outcome." + out->substr(0, out->find(':'))]++;
       if (!sig.empty()) { st.c["viol." + klass]++; if (reported.insert(sig).second) emit_violation("C17", klass, sig, detail, c17_replay(c, "trunc", cuts[i], nullptr)); }
     });
-  // --- a loaded-from-truncated file that was accepted: does it misbehave? (probe, informs the finding text)
+  // --- the same crash points through yr_rules_load(path): boundaries of every section and the whole last section
+  {
+    std::set<size_t> fs;
+    for (auto& b : l.bodies) for (long d = -12; d <= 12; d++) { long n = (long) b.first + d; if (n >= 0 && (size_t) n < c.image.size()) fs.insert(n); }
+    for (long d = -40; d <= 12; d++) { long n = (long) l.bodies_end + d; if (n >= 0 && (size_t) n < c.image.size()) fs.insert(n); }
+    for (size_t n = 0; n < l.table_end + 4 && n < c.image.size(); n++) fs.insert(n);
+    for (int k = 0; k < (thorough ? 200 : 40); k++) fs.insert(rng.below(c.image.size()));
+    std::vector<size_t> fcuts(fs.begin(), fs.end());
+    std::string path = tmp_dir() + "/c17-cut." + std::to_string((int) getpid()) + ".yarc";
+    isolate_batch(fcuts.size(), [&](size_t i) {
+        write_file(path, c.image.substr(0, fcuts[i]));
+        YR_RULES* loaded = (YR_RULES*) (uintptr_t) 0x5151; int rc = yr_rules_load(path.c_str(), &loaded);
+        if (rc != ERROR_SUCCESS) return loaded != (YR_RULES*) (uintptr_t) 0x5151 ? std::string("touched") : std::string("rejected:") + yr_error_name(rc);
+        yr_rules_destroy(loaded); return std::string("loaded"); },
+      [&](size_t i, const std::string* out, const IsoResult* crash) {
+        st.runs++; st.c["faults_fired.file_crash_at_byte_n"]++;
+        Hash64 h; h.add("ftrunc"); h.addu(case_idx); h.addu(fcuts[i]); st.hash(h.h);
+        std::string klass, detail; std::string sig = c17_judge_trunc(l, fcuts[i], out, crash, klass, detail);
+        if (!sig.empty()) { sig = "file-" + sig; st.c["viol." + klass]++; if (reported.insert(sig).second) emit_violation("C17", klass, sig, "through yr_rules_load(path): " + detail, c17_replay(c, "ftrunc", fcuts[i], nullptr)); }
+      });
+    unlink(path.c_str());
+  }
   // --- single-field corruptions, one forked child each (the loader may abort)
   std::vector<Corruption> cos = c17_corruptions(c.image, rng, thorough);
   for (size_t i = 0; i < cos.size(); i++) {
@@ -287,14 +308,16 @@ static void c17_disk_full(C17Case& c, Rng& rng, bool thorough, Stats& st, int ca
 }
 
 // ======================================================================= C08 =
-struct C08Out { std::string image, image_again, traces_before, traces_after_save, traces_loaded; int save_rc = 0, load_rc = 0; int64_t writes = 0; };
+struct C08Out { std::string image, image_again, image_gen2, traces_before, traces_after_save, traces_loaded, traces_gen2; int save_rc = 0, load_rc = 0, gen2_save_rc = -1, gen2_load_rc = -1; int64_t writes = 0; };
 
 static std::string c08_roundtrip(const LabCase& lc, const std::vector<std::string>& bufs, uint8_t junk, size_t pad, size_t chunk, C08Out& o) {
   // returns "" or an error text (harness-level)
   sim_alloc_reset(); g_alloc.junk_byte = junk; g_alloc.pad = pad;
   CompileResult cr = compile_rules(lc.spec);
   if (!cr.rules) return "compile failed: " + cr.messages;
+  poison_slack(cr.rules, true);
   o.traces_before = scan_traces(cr.rules, bufs);
+  poison_slack(cr.rules, false);
   MemStream ms; YR_STREAM s = ms.stream();
   o.save_rc = yr_rules_save_stream(cr.rules, &s); o.image = ms.data; o.writes = ms.writes;
   o.traces_after_save = scan_traces(cr.rules, bufs);
@@ -304,7 +327,20 @@ static std::string c08_roundtrip(const LabCase& lc, const std::vector<std::strin
   g_alloc.junk_byte = (uint8_t) (junk ^ 0xff);
   o.load_rc = load_rules(o.image, &loaded, chunk);
   yr_rules_destroy(cr.rules);         // the original is gone (and poisoned by ASan) before the copy is used
-  if (o.load_rc == ERROR_SUCCESS) { o.traces_loaded = scan_traces(loaded, bufs); yr_rules_destroy(loaded); }
+  if (o.load_rc == ERROR_SUCCESS) {
+    poison_slack(loaded, true);
+    o.traces_loaded = scan_traces(loaded, bufs);
+    poison_slack(loaded, false);
+    // second generation: the docs say loaded rules "can not be saved"; an error is therefore accepted,
+    // but a save that claims success has to produce the same image and working rules
+    MemStream g2; YR_STREAM sg = g2.stream();
+    o.gen2_save_rc = yr_rules_save_stream(loaded, &sg); o.image_gen2 = g2.data;
+    yr_rules_destroy(loaded);
+    if (o.gen2_save_rc == ERROR_SUCCESS) {
+      YR_RULES* l2 = NULL; o.gen2_load_rc = load_rules(o.image_gen2, &l2, 0);
+      if (o.gen2_load_rc == ERROR_SUCCESS) { poison_slack(l2, true); o.traces_gen2 = scan_traces(l2, bufs); poison_slack(l2, false); yr_rules_destroy(l2); }
+    }
+  }
   sim_alloc_reset();
   return "";
 }
@@ -336,6 +372,11 @@ static void c08_run_case(const LabCase& lc, Rng& rng, bool thorough, Stats& st, 
       if (a.load_rc == ERROR_SUCCESS && a.traces_loaded != a.traces_before) out += "loaded-differs;";
       if (a.image != a.image_again) out += "second-save-differs;";
       if (a.image != b.image) out += "image-depends-on-heap;";
+      if (a.gen2_save_rc == ERROR_SUCCESS) {
+        if (a.image_gen2 != a.image) out += "resaved-image-differs;";
+        else if (a.gen2_load_rc != ERROR_SUCCESS) out += "resaved-image-does-not-load;";
+        else if (a.traces_gen2 != a.traces_before) out += "resaved-rules-differ;";
+      }
       if (out.empty()) out = "ok";
       iso_emit(out + " writes=" + std::to_string(a.writes) + " bytes=" + std::to_string(a.image.size()) + "\n");
     }, 120);
@@ -514,7 +555,12 @@ int main(int argc, char** argv) {
       cc.ref_traces = scan_traces(cr.rules, cc.bufs); save_rules(cr.rules, cc.image); yr_rules_destroy(cr.rules);
       Layout l = layout_of(cc.image);
       std::string kind = c["kind"].str(); std::string klass, detail, sig;
-      if (kind == "trunc") {
+      if (kind == "ftrunc") {
+        size_t n = (size_t) c["n"].num(); std::string path = tmp_dir() + "/c17-cut.yarc";
+        isolate_batch(1, [&](size_t) { write_file(path, cc.image.substr(0, n)); YR_RULES* loaded = (YR_RULES*) (uintptr_t) 0x5151; int rc = yr_rules_load(path.c_str(), &loaded); if (rc != ERROR_SUCCESS) return loaded != (YR_RULES*) (uintptr_t) 0x5151 ? std::string("touched") : std::string("rejected:") + yr_error_name(rc); yr_rules_destroy(loaded); return std::string("loaded"); },
+          [&](size_t, const std::string* out, const IsoResult* crash) { sig = c17_judge_trunc(l, n, out, crash, klass, detail); if (!sig.empty()) sig = "file-" + sig; });
+        unlink(path.c_str());
+      } else if (kind == "trunc") {
         size_t n = (size_t) c["n"].num();
         isolate_batch(1, [&](size_t) { return c17_try_load(cc, cc.image.substr(0, n), false); }, [&](size_t, const std::string* out, const IsoResult* crash) { sig = c17_judge_trunc(l, n, out, crash, klass, detail); });
         // what the accepted rules then do when used (detail only)
